@@ -166,7 +166,7 @@ def c03_lifecycle(tr, out, snaps_by_market, exec_class="Simulated"):
         b = r["before"]
         o = tr.orders[r["o"]]
         otype = type(o.order_type).__name__
-        compatible = otype == "LimitOrder" or (r["kind"] == "REPLACE" and otype == "LimitOnCloseOrder")
+        compatible = otype in ("LimitOrder", "BetdaqLimitOrder") or (r["kind"] == "REPLACE" and otype == "LimitOnCloseOrder")
         guard_ok = b["status"] == "EXECUTABLE" and b["bet_id"] is not None and compatible
         out.rule("request-guard")
         out.d("guard:%s:%s:%s:%s" % (r["kind"], b["status"], otype, "ok" if r.get("result") else r.get("exc", "refused")))
